@@ -290,7 +290,7 @@ func supervise(cmd string, a map[string]string, onCrash func(token, stderrTail s
 	}
 	args["worker"] = "1"
 	self, _ := os.Executable()
-	for restarts := 0; restarts < 200; restarts++ {
+	for { // every restart resumes after the case that killed the worker, so this terminates
 		argv := []string{cmd}
 		for k, v := range args {
 			argv = append(argv, "-"+k, v)
